@@ -56,7 +56,7 @@ func wantFromStbl(data []byte) ([]*wantTrack, *stbl.Movie, error) {
 func genMovie(r *runner.Rand) (*prog.File, bool) {
 	anything := r.Chance(1, 20)
 	for try := 0; ; try++ {
-		o := prog.MovieOptions{Entries: entries, MaxTracks: 2, MaxSamples: r.PickInt(24, 60, 60, 90)}
+		o := prog.MovieOptions{Entries: entries, MaxTracks: 2, MaxSamples: r.PickInt(24, 60, 60, 90), ZeroSizes: true, LateSync: true}
 		if anything {
 			o.MaxTracks = 3
 		}
